@@ -5,6 +5,8 @@ CONSTANTS
   Deps <- DepsB
   Roots <- RootsB
   SubscribeLate = FALSE
+  MaxAbandon = 0
+  SilentAbandon = FALSE
 INVARIANT Emit
 INVARIANT SingleFlight
 INVARIANT OncePerEpoch
